@@ -272,4 +272,26 @@ def make_tracers(n: int, log: List[List[Any]], style: str = 'full'):
             t.on_error = lambda tc, rq, er, i=i: log.append(['error', i, id(tc), tc, rq, er])                      # type: ignore[method-assign]
             out.append(t)
         return out
+    if style == 'logging-subclass-last' and n:
+        # the LAST configured tracer extends the library's LoggingTracer (an application adding its own bookkeeping to it): it records and
+        # then lets the library class log; its place in the configuration is the last one
+        from pjrpc.client.tracer import LoggingTracer
+
+        class RecLogging(LoggingTracer):
+            def __init__(self, idx: int):
+                super().__init__()
+                self.idx = idx
+
+            def on_request_begin(self, trace_context, request):
+                log.append(['begin', self.idx, id(trace_context), trace_context, request, None])
+                super().on_request_begin(trace_context, request)
+
+            def on_request_end(self, trace_context, request, response):
+                log.append(['end', self.idx, id(trace_context), trace_context, request, response])
+                super().on_request_end(trace_context, request, response)
+
+            def on_error(self, trace_context, request, error):
+                log.append(['error', self.idx, id(trace_context), trace_context, request, error])
+                super().on_error(trace_context, request, error)
+        return [RecAll(i) for i in range(n - 1)] + [RecLogging(n - 1)]
     return [(Rec if style == 'partial' else RecAll)(i) for i in range(n)]
